@@ -99,7 +99,7 @@ async def probe(port, timeout=5.0):
 async def main(args):
     from . import lib as _lib
     _lib.UNIQUE_SRC = True   # records are joined with connections by source port
-    out = Out("C19", "c19", "upstream kind {origin via direct, proxy via http, via socks5, via quic, load balancer over two, a non-redproxy QUIC server} x fault {SIGKILL+restart, SIGTERM+restart, SIGSTOP..SIGCONT, SIGSTOP+SIGKILL+restart, polite QUIC close (CONNECTION_CLOSE)+restart} x phase {idle, mid-transfer (tunnel open across the outage), during connect, requests arriving throughout an outage that outlasts every connect timeout} x outage length, repeated outages, with a continuous healthy probe stream on another upstream. distinct = distinct (kind, fault, phase, outage length, verdict part)")
+    out = Out("C19", "c19", "upstream kind {origin via direct, proxy via http, via socks5, via quic, load balancer over two, a non-redproxy QUIC server} x fault {SIGKILL+restart, SIGTERM+restart, SIGSTOP..SIGCONT, SIGSTOP+SIGKILL+restart, polite QUIC close (CONNECTION_CLOSE)+restart} x phase {idle, mid-transfer (tunnel open across the outage), during connect, requests arriving throughout an outage that outlasts every connect timeout, upstream absent when the first request arrives} x outage length, repeated outages, with a continuous healthy probe stream on another upstream. distinct = distinct (kind, fault, phase, outage length, verdict part)")
     rng = random.Random(args.seed)
     wd = workdir("c19")
     O = await TcpOrigin(echo_handler, host="127.0.0.1").start()
@@ -116,7 +116,9 @@ async def main(args):
             combos.append((kind, "stop-cont", rng.choice(["idle", "during-connect"]), 1.0, 1))
     combos.append(("direct", "reset-restart", "mid-transfer", 0.5, 1))
     combos.append(("q", "kill-restart", "requests-during-outage", 33.0, 1))
-    combos.append(("qx", "kill-restart", "requests-during-outage", 33.0, 1))
+    combos.append(("qx", "kill-restart", "requests-during-outage", 70.0 if args.thorough else 33.0, 1))
+    for kind in ("qx", "h", "direct"):
+        combos.append((kind, "absent", "down-at-start", 0.0, 1))
     if args.thorough:
         for kind in ("h", "s5", "lb", "direct"):
             combos.append((kind, "kill-restart", "requests-during-outage", 8.0, 1))
@@ -252,7 +254,9 @@ async def main(args):
 
     async def run_scenario(s):
         out.case()
-        r, _ = await probe(s.port, 8.0)
+        r = "ok"
+        if s.phase != "down-at-start":
+            r, _ = await probe(s.port, 8.0)
         if r != "ok":
             # one retry: first use of a lazily connected upstream
             r, _ = await probe(s.port, 8.0)
@@ -293,7 +297,18 @@ async def main(args):
                             p.cancel()
                 bg = asyncio.ensure_future(outage_probes())
             t_fault = now()
-            hard = await inject(s)
+            if s.phase == "down-at-start":
+                # the upstream has never been there: the very first request runs into whatever connect timeout the connector has
+                # and fails; then the upstream appears
+                r0, _ = await probe(s.port, 50.0)
+                out.nontrivial((s.kind, "down-at-start", "first-request", r0))
+                if r0 == "ok":
+                    out.inconclusive += 1
+                    return
+                await start_upstream(s)
+                hard = True
+            else:
+                hard = await inject(s)
             if bg is not None:
                 bg.cancel()
             ok = await upstream_reachable(s)
@@ -369,7 +384,8 @@ async def main(args):
 
     try:
         for s in scen:
-            await start_upstream(s)
+            if s.phase != "down-at-start":
+                await start_upstream(s)
         await A.start()
         hs = asyncio.ensure_future(healthy_stream())
         await asyncio.sleep(0.3)
